@@ -64,7 +64,7 @@ fn link_plan(prop: &str, scenario: &str, seed: u64, cells: &[(Proto, &'static st
 }
 
 /// bytes of the first flight that Shadowsocks 2022 requires in one read (salt [+ identity headers] + sealed fixed header)
-fn exempt_prefix(cfg: &Config, dir: &str) -> u64 {
+pub(crate) fn exempt_prefix(cfg: &Config, dir: &str) -> u64 {
     if cfg.proto != Proto::Shadowsocks || !is_2022(&cfg.cipher) {
         return 0;
     }
@@ -140,14 +140,15 @@ fn script_is_merge(cuts: &[u64], out: u64, inp: u64) -> bool {
 /// segmentation families of C04: on the plain tcp carrier (byte stream cut into TCP segments), on the WebSocket
 /// carrier with the payload stream re-cut into WebSocket *messages* by the WebSocket-aware link node (ws-*), and on the
 /// WebSocket carrier with the framed byte stream cut into TCP segments underneath the WebSocket layer (wstcp-*)
-pub const C04_MODES: [&str; 8] = ["single", "bytewise", "multi", "ws-single", "ws-bytewise", "ws-merge", "wstcp-single", "wstcp-multi"];
+/// (tls-*: the link node terminates TLS and every piece travels as TLS record(s) of its own)
+pub const C04_MODES: [&str; 11] = ["single", "bytewise", "multi", "ws-single", "ws-bytewise", "ws-merge", "wstcp-single", "wstcp-multi", "tls-single", "tls-multi", "tls-bytewise"];
 
 pub fn gen_c04(seed: u64, thorough: bool) -> Plan {
     let cells = link_cells();
     // which segmentations this plan enumerates
     let round = seed as usize / (2 * cells.len());
     let mode = C04_MODES[round % C04_MODES.len()];
-    let transport = if mode.starts_with("ws") { Transport::Ws } else { Transport::Tcp };
+    let transport = if mode.starts_with("ws") { Transport::Ws } else if mode.starts_with("tls-") { Transport::Tls } else { Transport::Tcp };
     let (mut plan, mut g) = link_plan("C04", "link-seg", seed, &cells, transport);
     plan.extra["mode"] = mode.into();
     plan.extra["multi_samples"] = (if thorough { 400 } else { 40 }).into();
@@ -220,7 +221,8 @@ pub fn execute_c04(plan: &Plan) -> Outcome {
     };
     // baseline: unsegmented, must be clean (otherwise it is a C01 matter, reported here once)
     let ws_level = matches!(mode.as_str(), "ws-single" | "ws-bytewise" | "ws-merge");
-    let base = run_link(plan, &dir, if ws_level { DirScript { ws_mode: 1, ..Default::default() } } else { DirScript::default() });
+    let tls_level = mode.starts_with("tls-");
+    let base = run_link(plan, &dir, if ws_level { DirScript { ws_mode: 1, ..Default::default() } } else { DirScript { tls: tls_level, ..Default::default() } });
     // message-level runs count offsets in the payload stream of the WebSocket data messages, the others in the byte stream
     let n = if ws_level { base.ws_payload_len } else { base.stream_len };
     sim_ns += base.sim_ns;
@@ -250,7 +252,7 @@ pub fn execute_c04(plan: &Plan) -> Outcome {
             }
         }
     } else if baseline_ok && n > 1 {
-        match mode.as_str() {
+        match mode.strip_prefix("tls-").unwrap_or(mode.as_str()) {
             "ws-single" => {
                 for k in 1..n {
                     cases.push((DirScript { cuts: vec![k], gap_ms: 200, ws_mode: 1, ..Default::default() }, format!("websocket message cut at payload offset {k} of {n}"), k < exempt));
@@ -313,10 +315,14 @@ pub fn execute_c04(plan: &Plan) -> Outcome {
         }
     }
     let mut first_failing: BTreeMap<String, String> = BTreeMap::new();
-    for (script, what, ex) in cases {
+    for (mut script, what, ex) in cases {
+        script.tls = tls_level;
         let cuts = script.cuts.clone();
         let lr = run_link(plan, &dir, script);
         evals += 1;
+        if tls_level {
+            *probes.entry("segmentations_at_tls_record_level".to_owned()).or_insert(0) += 1;
+        }
         sim_ns += lr.sim_ns;
         polls += lr.polls;
         ev_count += lr.ev_count;
